@@ -87,6 +87,9 @@ def gen_rng(rnd, fns):
                 plan.append({"fn": fn, "kind": "category_constant", "which": rnd.randrange(4)})
             else:
                 plan.append({"fn": fn, "kind": rnd.choice(["shuffle_identity", "shuffle_reverse", "shuffle_rotate"]), "k": rnd.randint(1, 50)})
+    if rnd.random() < 0.5:
+        # (the unchanged code never asks for plain uniforms; an implementation that builds its draws from them gets the ends)
+        plan.append({"fn": "random", "kind": rnd.choice(["uniform_max", "uniform_max", "uniform_zero"])})
     return {"kind": "adversarial", "seed": rnd.randrange(2**31), "plan": plan}
 
 
@@ -469,7 +472,7 @@ def execute(scn, ctx):
             faults[kd] = faults.get(kd, 0) + 1
             n_adv += 1
             probe({"binom": "adversarial_binomial", "norma": "adversarial_normal", "categ": "adversarial_choice", "shuff": "adversarial_shuffle",
-                   "rng_r": "generator_failure"}[kd[:5]])
+                   "rng_r": "generator_failure", "unifo": "adversarial_uniform"}.get(kd[:5], "adversarial_other"))
         trace.append([step, ds, tags, sorted(set(fired)), outcome])
         sig.append(f"{ds}|{tags['rng']}|{op.get('random')}|{','.join(sorted(set(fired)))}|{outcome}")
     seen, out = set(), []
